@@ -48,7 +48,11 @@ class Resolver:
 
     def single_def(self, name: str) -> ast.expr | None:
         d = self._defs.get(name, [])
-        return d[0] if len(d) == 1 and name not in self.params and name not in self._mutated else None
+        if len(d) != 1 or name in self.params:
+            return None
+        if name in self._mutated and not isinstance(d[0], (ast.Attribute, ast.Name, ast.Subscript)):
+            return None  # a fresh object that is filled in place is not its initialiser; an alias of existing storage still is
+        return d[0]
 
     def helper_return(self, call: ast.Call):
         """`self._helper(args)` where the helper's body ends in one return: (helper, return expr, binding)"""
